@@ -12,10 +12,10 @@ func init() {
 		level: "other",
 		explanation: "advanceDFA is flattened from the syntax tree into a complete state x rune-interval transition table over all of Unicode and evalDFA into state -> (terminal, lexeme operation, consume call); " +
 			"the resulting Moore machine is compared by product exploration with a reference machine the checker builds from the documented token table (docs/5-definitions.md) plus the property's whitespace/comment clauses; " +
-			"lexeme, consume-once, position-source and scan-loop obligations are decided on the AST/SSA. Decides every (state, code point) pair and every accepting state; does not execute the scanner.",
-		trusted: []string{"checker's regex->NFA->DFA engine (automata.go)", "the dependency's input buffer (Next/Retract/Lexeme/Skip) behaves as documented: Lexeme/Skip return the position of the lexeme's first character",
+			"lexeme, consume-once, position-source, scan-loop and token-loop obligations are decided on the AST/SSA; the reader (module code: the lexer scans the text in memory) is decided as well: cursor invariant, end-of-input test, lexeme slice, and the offset/line/column walk (R5.5). Decides every (state, code point) pair and every accepting state; does not execute the scanner.",
+		trusted: []string{"checker's regex->NFA->DFA engine (automata.go)", "unicode/utf8's DecodeRune / DecodeLastRune contracts (0 <= size <= len(p); a size of 1 with RuneError means an invalid encoding)",
 			"documented token table in docs/5-definitions.md and comment rules in docs/6-design.md"},
-		assumptions: []string{"REGEX excludes the forms that start a comment (// and /*), as docs/6-design.md states", "input is decoded to runes by the dependency's reader"},
+		assumptions: []string{"REGEX excludes the forms that start a comment (// and /*), as docs/6-design.md states", "the reader is the module's in-memory reader (R5.5 decides it); were lexer.New to use the dependency's reader again, R5.5 records that it is trusted"},
 	}})
 }
 
